@@ -530,11 +530,17 @@ def handleLoop (st : Stats) (line : String) (rest : List String) : IO Stats := d
     let mut nalrm := 0
     -- back-off across clean restarts (black box on the delivery commands and reports): a recipient reported Z in a pass whose
     -- retry time is R must not be started again before R, in this or a later daemon process, unless an ALRM intervened
-    let mut orcKnown : Option String := none
     let mut inc := 1
     let mut cmds : List (Nat × (Nat × Nat × String × Int × Bool)) := []          -- attempt ↦ chan, id, recipient, retry, dying
     let mut owed : List ((Nat × Nat × String) × (Int × Nat × Int)) := []         -- (chan, id, recipient) ↦ R, daemon #, time of the Z
     let mut cut : List (Nat × Nat × Nat) := []                                   -- (daemon #, chan, id): pass open when that daemon exited
+    -- correspondence with the fine-grained pass model (Nq.SchedPass.openSt): jo[].retry / flagdying are computed from `recent`
+    -- at the moment the job is OPENED = the `recent` of the first select that shows pass[c] open (or the time of the command, if the
+    -- command comes first), for the messages whose birth the scenario fixes
+    let lifetime : Int := ((scen.splitOn "/").findSome? fun f => if f.startsWith "life=" then (f.drop 5).toString.toInt? else none).getD 604800
+    let mut births : List (Nat × Int) := []
+    let mut openAt : List (Nat × Int) := []        -- channel ↦ recent at open of the pass currently open
+    let mut nopenChecked := 0
     let mut nrestart := 0
     let mut npcut := 0
     let mut nowedAcross := 0
@@ -543,10 +549,23 @@ def handleLoop (st : Stats) (line : String) (rest : List String) : IO Stats := d
         alrm := 2
         owed := []
       else if t.startsWith "i:" then
+        openAt := []
         match t.splitOn ":" with
         | ["i", _, n] =>
           inc := n.toNat?.getD inc
           if inc > 1 then nrestart := nrestart + 1
+        | _ => pure ()
+      else if t.startsWith "n:" then
+        -- an arrival may reuse the number of a message that has left the queue: its birth is the time todo/ is processed (not fixed here)
+        match t.splitOn ":" with
+        | ["n", _, ids] => births := births.filter (fun x => some x.1 != ids.toNat?)
+        | _ => pure ()
+      else if t.startsWith "q:" then
+        match t.splitOn ":" with
+        | ["q", ids, bs] =>
+          match ids.toNat?, bs.toInt? with
+          | some id, some b => births := (id, b) :: births
+          | _, _ => pure ()
         | _ => pure ()
       else if t.startsWith "c:" then
         match t.splitOn ":" with
@@ -558,15 +577,21 @@ def handleLoop (st : Stats) (line : String) (rest : List String) : IO Stats := d
             | some (_, (r, zi, tz)) =>
               if zi < inc then nowedAcross := nowedAcross + 1
               if tc < r then
-                let known := zi < inc && cut.any (fun (i, c, m) => i == zi && c == ch && m == id)
-                let msg := s!"recipient {recip} of message {id} (channel {ch}) was reported Z at {tz} (T0+{tz - 1000000000}) in a pass with retry time {r} (T0+{r - 1000000000}); it is started again at {tc} (T0+{tc - 1000000000}), {r - tc} s before its back-off time, by daemon #{inc} (the Z was seen by daemon #{zi}{if known then "; its pass on this message was still open when it exited after TERM, so job_close never re-inserted it and pqfinish did not stamp the channel file" else ""})"
-                if known then
-                  if orcKnown.isNone then orcKnown := some msg
-                else
-                  if orc.isNone then orc := some msg
+                let cutp := zi < inc && cut.any (fun (i, c, m) => i == zi && c == ch && m == id)
+                let msg := s!"recipient {recip} of message {id} (channel {ch}) was reported Z at {tz} (T0+{tz - 1000000000}) in a pass with retry time {r} (T0+{r - 1000000000}); it is started again at {tc} (T0+{tc - 1000000000}), {r - tc} s before its back-off time, by daemon #{inc} (the Z was seen by daemon #{zi}{if cutp then "; its pass on this message was still open when it exited after TERM: the retry time of the cut pass was not persisted (pass_finish)" else ""})"
+                if orc.isNone then orc := some msg
             | none => pure ()
             owed := owed.filter (fun x => !(x.1 == key))
             cmds := (a, (ch, id, recip, retry, dy == "1")) :: cmds
+            let topen := ((openAt.find? (·.1 == ch)).map (·.2)).getD tc
+            if (openAt.find? (·.1 == ch)).isNone then openAt := (ch, tc) :: openAt
+            match births.find? (·.1 == id), (if ch == 0 then some Chan.loc else if ch == 1 then some Chan.rem else none) with
+            | some (_, b), some chn =>
+              nopenChecked := nopenChecked + 1
+              let job := jobOpen topen lifetime b chn
+              if (job.retry != retry || job.dying != (dy == "1")) && dis.isNone then
+                dis := some s!"command at {tc} for message {id} channel {ch}: jo.retry={retry} flagdying={dy}, model (job opened at {topen}, birth {b}, lifetime {lifetime}): retry={job.retry} dying={job.dying}"
+            | _, _ => pure ()
           | _, _, _, _, _ => if dis.isNone then dis := some s!"unparsable command record {t}"
         | _ => if dis.isNone then dis := some s!"unparsable command record {t}"
       else if t.startsWith "r:" then
@@ -587,6 +612,10 @@ def handleLoop (st : Stats) (line : String) (rest : List String) : IO Stats := d
           k := k + r.count
           nsel := nsel + r.count
           let s := r.snap
+          for (ci, cs) in [(0, s.chans.getD 0 {}), (1, s.chans.getD 1 {})] do
+            if cs.passOpen then
+              if (openAt.find? (·.1 == ci)).isNone then openAt := (ci, s.recent) :: openAt
+            else openAt := openAt.filter (fun x => !(x.1 == ci))
           -- "an ALRM makes everything due at once": at the first select after pqrun() the head of every channel heap is due
           if alrm > 0 then
             if r.count ≥ alrm then
@@ -639,6 +668,7 @@ def handleLoop (st : Stats) (line : String) (rest : List String) : IO Stats := d
     st := bumpN st "loop_sleeps_ended_by_a_startable_due_time" ncut
     st := bumpN st "loop_blocked_sleeps_with_pqfail_entry" nbFail
     st := bumpN st "loop_alrm_checked" nalrm
+    st := bumpN st "loop_commands_compared_with_jobOpen_at_open_time" nopenChecked
     st := bumpN st "loop_clean_restarts" nrestart
     st := bumpN st "loop_passes_cut_short_by_term" npcut
     st := bumpN st "loop_deferred_recipients_restarted_by_a_later_daemon" nowedAcross
@@ -653,11 +683,6 @@ def handleLoop (st : Stats) (line : String) (rest : List String) : IO Stats := d
     match orc with
     | some w =>
       IO.println s!"ORACLE in=W,{scen} what={(w.replace " " "_").take 1200}"
-      st := { st with oracle := st.oracle + 1 }
-    | none => pure ()
-    match orcKnown with
-    | some w =>
-      IO.println s!"ORACLE in=W,{scen} what={(w.replace " " "_").take 1200} known=C15-term-midpass"
       st := { st with oracle := st.oracle + 1 }
     | none => pure ()
     if st.samples < 2 && fresh && nblockedStartable > 0 && ncut > 0 && scen.length < 200 then
